@@ -240,6 +240,9 @@ func (in *Inst) enterLoop(lp *Loop) *State {
 	envHead := in.loopEnv(lp, head, func(p *ssa.Phi) Val { return lp.phiHead[p] })
 	if lp.spec != nil {
 		for _, iv := range lp.spec.Invariants {
+			if e.W.otherProp(iv.Prop) {
+				continue // clause of another property: neither proved nor assumed in this run
+			}
 			t := in.specBool(iv.Expr, envHead)
 			e.assume(head.reach, t)
 		}
@@ -259,6 +262,9 @@ func (in *Inst) checkInvs(lp *Loop, kind, guard string, env *SpecEnv, st *State,
 	lk := fmt.Sprintf("L%d", lp.ordinal)
 	if lp.spec != nil {
 		for i, iv := range lp.spec.Invariants {
+			if e.W.otherProp(iv.Prop) {
+				continue
+			}
 			t := in.specBool(iv.Expr, env)
 			o := e.oblige(kind, fmt.Sprintf("%s#%d", lk, i), lp.header.Instrs[0].Pos(), guard, t)
 			o.Top = iv.Top
